@@ -373,7 +373,7 @@ def _scalars(bp, res: Result, shard):
                         res.violation("scalar-bytes", [fi.kind, label, "negative-zero-omitted" if (negzero and got == b"") else ("negative-zero" if negzero else "bytes-differ")],
                                       f"{fi.kind} {label} value {v!r}: betterproto {got.hex()} reference {ref.hex()} spec {exp.hex()}",
                                       {"kind": "scalar", "msg": mname, "number": fi.number, "label": label,
-                                       "value": _enc(v)})
+                                       "value": _enc(v), "shard": {"kind": "scalars", "seed": shard["seed"], "n": shard["n"]}})
                 if res.samples == [] or len(res.samples) < 3:
                     res.sample({"kind": fi.kind, "label": label, "value": repr(vals[-1]), "bytes": got.hex()})
     finally:
@@ -402,6 +402,9 @@ def replay(w):
         _check_decoder_input(bp, res, bytes.fromhex(w["b"]))
     elif w["kind"] == "decoff":
         _check_decoder_offsets(bp, res)
+    elif w["kind"] == "scalar" and w.get("shard"):
+        # the encoders may carry state from one call to the next: the whole sequence of the shard is replayed
+        _scalars(bp, res, w["shard"])
     elif w["kind"] == "scalar":
         from .. import corpus
         from ..values import BP, REF, tree_from_json, canon, NAN
